@@ -96,7 +96,9 @@ RULE_B = ("cases = simulated runs of Engine B: a seeded recipe program - a prelu
           "over shared objects - executed on the real Recipe beside an eager reference (the same operations through the direct API), "
           "a per-step ledger (model snapshots of every object at every step boundary) and a life-cycle reference machine. "
           "A run is non-trivial if at least two steps were accepted; distinct = distinct coverage signatures (sorted set of "
-          "(call kind, predicted outcome, actual outcome, life-cycle state) and query tuples of the run).")
+          "(call kind, predicted outcome, actual outcome, life-cycle state) and query tuples of the run). Inside the same run some "
+          "programs are followed by a second recipe on the baked results (15 %), mirrored call by call on a second Recipe object "
+          "(shadow, 12 %), or run again under other names (alias, 10 %); the probes count them.")
 
 
 class Mixed:
